@@ -127,6 +127,8 @@ FunctorManager::Env FunctorManager::createEnv(Context& caller, unsigned id, cons
   {
     _ctx = entry.ctx_cache.front();
     entry.ctx_cache.pop_front();
+    /* local variables start every call unset */
+    entry.functor->ctx->resetChildRuntime(*_ctx);
     _ctx->recursion(r + 1);
     _ctx->trace(caller.trace());
     _ctx->returnCondition(false);
